@@ -115,7 +115,7 @@ func toFloatMap(m map[string]any) map[string]any {
 func checkParsed(raw []byte) Event {
 	in := append([]byte{}, raw...)
 	var parsed any
-	out := Guard(10*time.Second, func() error {
+	out := Guard(90*time.Second, func() error {
 		var err error
 		parsed, err = abi.QuoteToProto(in)
 		return err
@@ -128,7 +128,7 @@ func checkParsed(raw []byte) Event {
 		"verify.RawTdxQuote":   func() error { return verify.RawTdxQuote(append([]byte{}, raw...), &verify.Options{}) },
 		"validate.RawTdxQuote": func() error { return validate.RawTdxQuote(append([]byte{}, raw...), &validate.Options{}) },
 	} {
-		if o := Guard(10*time.Second, fn); o.Panic != "" || o.Timeout {
+		if o := Guard(90*time.Second, fn); o.Panic != "" || o.Timeout {
 			crashed = append(crashed, name)
 		}
 	}
@@ -148,7 +148,7 @@ func checkParsed(raw []byte) Event {
 	}
 	var back []byte
 	stable := true
-	o2 := Guard(10*time.Second, func() error {
+	o2 := Guard(90*time.Second, func() error {
 		var err error
 		back, err = abi.QuoteToAbiBytes(m)
 		if err != nil {
@@ -170,7 +170,7 @@ func checkParsed(raw []byte) Event {
 	})
 	ev["reserialOk"] = o2.Verdict() == "accept" && bytes.Equal(back, raw) && stable
 	var hb []byte
-	o3 := Guard(10*time.Second, func() error {
+	o3 := Guard(90*time.Second, func() error {
 		h, err := abi.HeaderToAbiBytes(m.GetHeader())
 		if err != nil {
 			return err
